@@ -93,7 +93,10 @@ func (this *GlobalHistogramBinarizer) GetBlackMatrix() (*BitMatrix, error) {
 	localBuckets := this.buckets
 	for y := 1; y < 5; y++ {
 		row := height * y / 5
-		localLuminances, _ := source.GetRow(row, this.luminances)
+		localLuminances, e := source.GetRow(row, this.luminances)
+		if e != nil {
+			return nil, e
+		}
 		right := (width * 4) / 5
 		for x := width / 5; x < right; x++ {
 			pixel := localLuminances[x] & 0xff
